@@ -807,7 +807,180 @@ func (w *Walker) blockFacts(fr *Frame, b *ssa.BasicBlock, depth int) []FactT {
 			}
 		}
 	}
+	// after a loop that runs every check of a literal list and returns the first error:
+	// every check returned nil
+	if depth < 6 {
+		for _, cl := range checksLoopsOf(fr.Fn) {
+			if cl.done != b && !cl.done.Dominates(b) {
+				continue
+			}
+			for _, mc := range cl.closures {
+				fs = append(fs, w.closureStepFacts(fr, mc, depth)...)
+			}
+		}
+	}
 	return withEquivalents(fs)
+}
+
+type checksLoop struct {
+	done     *ssa.BasicBlock // where control continues when the list is exhausted
+	call     ssa.CallInstruction
+	closures []*ssa.MakeClosure
+}
+
+var checksLoopMemo = map[*ssa.Function][]checksLoop{}
+
+// checksLoopsOf:  for _, check := range []func() error{…} { if err := check(); err != nil { return err } }
+// The only ways out of the loop are the failure return and the exhausted list.
+func checksLoopsOf(f *ssa.Function) []checksLoop {
+	if r, ok := checksLoopMemo[f]; ok {
+		return r
+	}
+	var out []checksLoop
+	for _, b := range f.Blocks {
+		for _, ins := range b.Instrs {
+			c, ok := ins.(*ssa.Call)
+			if !ok || c.Common().IsInvoke() || c.Common().StaticCallee() != nil || len(c.Common().Args) != 0 {
+				continue
+			}
+			ld, ok := c.Common().Value.(*ssa.UnOp)
+			if !ok || ld.Op != token.MUL {
+				continue
+			}
+			ia, ok := ld.X.(*ssa.IndexAddr)
+			if !ok {
+				continue
+			}
+			sig, ok := c.Common().Value.Type().Underlying().(*types.Signature)
+			if !ok || sig.Results().Len() != 1 || !isErrorType(sig.Results().At(0).Type()) {
+				continue
+			}
+			h := loopHeaderOf(b)
+			if h == nil || len(h.Succs) != 2 {
+				continue
+			}
+			var mcs []*ssa.MakeClosure
+			all := true
+			els := variadicElems(ia.X)
+			for _, el := range els {
+				mc := staticClosureOf(el, 0)
+				if el == nil || mc == nil {
+					all = false
+					break
+				}
+				mcs = append(mcs, mc)
+			}
+			if !all || len(mcs) == 0 {
+				continue
+			}
+			// the loop: header h, body; exits only through h (list exhausted) or a failure return
+			inLoopB := func(x *ssa.BasicBlock) bool {
+				return x == h || (h.Dominates(x) && reachesAvoiding(x, h, nil))
+			}
+			var done *ssa.BasicBlock
+			for _, sc := range h.Succs {
+				if !inLoopB(sc) || !reachesBlock(sc, h) {
+					done = sc
+				}
+			}
+			if done == nil || len(done.Preds) != 1 {
+				continue
+			}
+			okShape := true
+			for _, x := range f.Blocks {
+				if x == h || !h.Dominates(x) || !reachesBlock(x, h) {
+					continue
+				}
+				for _, sc := range x.Succs {
+					if sc == h || (h.Dominates(sc) && reachesBlock(sc, h)) {
+						continue
+					}
+					// leaving the loop from the body: only to a failure return
+					last := sc.Instrs[len(sc.Instrs)-1]
+					ret, isRet := last.(*ssa.Return)
+					if !isRet || !(isFailureReturn(ret) || returnsValue(ret, c)) {
+						okShape = false
+					}
+				}
+			}
+			// the call's error is tested: the loop continues only when it is nil
+			if !okShape || !errorPropagated(c) {
+				continue
+			}
+			out = append(out, checksLoop{done: done, call: c, closures: mcs})
+		}
+	}
+	checksLoopMemo[f] = out
+	return out
+}
+
+func reachesBlock(from, to *ssa.BasicBlock) bool {
+	seen := map[*ssa.BasicBlock]bool{}
+	q := []*ssa.BasicBlock{from}
+	for len(q) > 0 {
+		x := q[0]
+		q = q[1:]
+		if x == to {
+			return true
+		}
+		if seen[x] {
+			continue
+		}
+		seen[x] = true
+		q = append(q, x.Succs...)
+	}
+	return false
+}
+
+// returnsValue: the return hands back v (the error of the failed check) as its last result.
+func returnsValue(ret *ssa.Return, v ssa.Value) bool {
+	return len(ret.Results) > 0 && ret.Results[len(ret.Results)-1] == v
+}
+
+// closureStepFacts: the facts common to the non-failure returns of a check closure.
+func (w *Walker) closureStepFacts(fr *Frame, mc *ssa.MakeClosure, depth int) []FactT {
+	fn, _ := mc.Fn.(*ssa.Function)
+	if fn == nil || fn.Blocks == nil || onChain(fr, fn) {
+		return nil
+	}
+	cfr := &Frame{Fn: fn, Parent: fr, MC: mc, Depth: fr.Depth + 1}
+	var common map[string]FactT
+	for _, r := range returnsOf(fn) {
+		if isFailureReturn(r) {
+			continue
+		}
+		m := map[string]FactT{}
+		for _, ft := range w.exitFacts(cfr, r.Block(), depth+1) {
+			m[ft.String()] = ft
+		}
+		// `return validateX(p.F)`: the callee's success facts
+		if len(r.Results) == 1 {
+			if rc, ok := r.Results[0].(*ssa.Call); ok {
+				for _, ft := range w.impliedFacts(cfr, CallFact{Call: rc, Outcome: "err==nil"}, depth+1) {
+					m[ft.String()] = ft
+				}
+			}
+		}
+		if common == nil {
+			common = m
+		} else {
+			for k := range common {
+				if _, ok := m[k]; !ok {
+					delete(common, k)
+				}
+			}
+		}
+	}
+	var keys []string
+	for k := range common {
+		keys = append(keys, k)
+	}
+	sort.Strings(keys)
+	var out []FactT
+	for _, k := range keys {
+		out = append(out, common[k])
+	}
+	return out
 }
 
 // splitTop splits s at top-level occurrences of sep (outside parentheses,
